@@ -3,6 +3,7 @@ import lib
 import wpt
 import urlcorr
 import urlpreds
+import pathcorr
 from lib import hx, unhx
 
 CMP = urlcorr.SPEC_FIELDS
@@ -105,6 +106,9 @@ def check(run):
         if st == "ok":
             run.nontriv((r["case"][0], r["case"][1]))
     run.extra["outcomes"] = stat
+    # L1: the path builder (trivial / fast / general code paths of helpers::parse_prepared_path, helpers::shorten_path) against
+    # its Lean model, which Props/C01 proves equal to the Standard's path state
+    pathcorr.explore(run, binp, 6000 if run.tier == "quick" else 120000)
     for r in res[-3:]:
         run.sample(urlcorr.describe(r["case"]))
     run.oblige("corr:impl-vs-spec(parse)", True)
